@@ -133,6 +133,11 @@ def case_operator(col, p):
         gm = np.ma.getmaskarray(outm)
         if not np.array_equal(gm, exm):
             col.violation('C08:project:mask_image', dict(p, masked=idx), {'got': gm.astype(int), 'expected': exm.astype(int)})
+        # the mask image must not depend on the data: same singleton mask over an all-zero spectrum
+        outz = dadi.Spectrum(np.zeros(shape), mask=mask, mask_corners=False).project(list(ns_to))
+        col.tick(transitions=1)
+        if not np.array_equal(np.ma.getmaskarray(outz), exm):
+            col.violation('C08:project:mask_image_zero_data', dict(p, masked=idx), {'got': np.ma.getmaskarray(outz).astype(int), 'expected': exm.astype(int)})
     col.observe('operator_abs', worst)
     col.tick(states=int(np.prod(shape)))
     col.distinct('nontrivial', ('op', ns_from, ns_to))
@@ -290,7 +295,108 @@ def case_bfs(col, p):
     col.observe('bfs_depth', res['max_depth'])
 
 
-CASES = {'weights': case_weights, 'operator': case_operator, 'maskpairs': case_maskpairs, 'misc': case_misc, 'bfs': case_bfs}
+def _cache_ok(col, p, path):
+    """invariant: every entry of Numerics._projection_cache equals the exact weights"""
+    from dadi import Numerics
+    bad = None
+    for (m, n, h), w in list(Numerics._projection_cache.items()):
+        m, n, h = int(m), int(n), int(h)
+        if n < m:
+            ex = np.zeros(m + 1)
+        else:
+            ex = np.array([float(RS.hyper_w(n, m, h, j)) for j in range(m + 1)])
+        if np.shape(w) != ex.shape or not np.allclose(np.asarray(w, dtype=float), ex, rtol=1e-11, atol=1e-300):
+            bad = {'key': (m, n, h), 'cached': np.asarray(w, dtype=float), 'exact': ex}
+            break
+    if bad:
+        col.violation('C08:projection_cache:corrupted', dict(p, path=path), bad)
+        Numerics._projection_cache.clear()
+    return bad is None
+
+
+def _lp_exact(nseq, nsub):
+    return np.array([[float(RS.hyper_w(nseq, nsub, h, j)) for j in range(nsub + 1)] for h in range(nseq + 1)])
+
+
+def case_cache_history(col, p):
+    """all sequences (depth <= D) of operations that read the shared projection cache; after each one the cache must still
+    hold exact weights and a fresh projection must be exact (memoisation is transparent)"""
+    import dadi
+    from dadi import Numerics
+    import dadi.LowPass.LowPass as LP
+
+    def dd(npop, repeat):
+        d = {}
+        for i in range(repeat):
+            calls = {'A': (3, 3)} if npop == 1 else {'A': (3, 3), 'B': (4, 2)}
+            d['snp%d' % i] = {'segregating': ['A', 'T'], 'calls': calls, 'outgroup_allele': 'A', 'context': '-A-', 'outgroup_context': '-A-'}
+        return d
+
+    def op_project():
+        fs = dadi.Spectrum(np.arange(7.0))
+        out = fs.project([4])
+        ex, _ = RS.project(RS.fr_array(np.arange(7.0)), np.zeros(7, bool), [4])
+        return np.allclose(np.asarray(out.data), RS.to_float(ex), rtol=0, atol=1e-12)
+
+    def op_dd1():
+        fs = dadi.Spectrum.from_data_dict(dd(1, 3), ['A'], [4])
+        ex = np.array([3 * float(RS.hyper_w(6, 4, 3, j)) for j in range(5)])
+        return np.allclose(np.asarray(fs.data), ex, rtol=0, atol=1e-12)
+
+    def op_dd2():
+        fs = dadi.Spectrum.from_data_dict(dd(2, 2), ['A', 'B'], [4, 3])
+        ex = 2 * np.outer([float(RS.hyper_w(6, 4, 3, j)) for j in range(5)], [float(RS.hyper_w(6, 3, 2, j)) for j in range(4)])
+        return np.allclose(np.asarray(fs.data), ex, rtol=0, atol=1e-12)
+
+    def op_dd1_unpol():
+        fs = dadi.Spectrum.from_data_dict(dd(1, 2), ['A'], [4], polarized=False)
+        return abs(float(np.asarray(fs.data)[~np.ma.getmaskarray(fs)].sum()) - 2 * (1 - float(RS.hyper_w(6, 4, 3, 0)) - float(RS.hyper_w(6, 4, 3, 4)))) < 1e-12
+
+    def op_lp0():
+        return np.allclose(LP.projection_matrix(6, 4, 0), _lp_exact(6, 4), rtol=0, atol=1e-12)
+
+    def op_lpF():
+        M = LP.projection_matrix(6, 4, 0.5)
+        return np.allclose(M.sum(axis=1), 1.0, atol=1e-12) and not np.allclose(M, _lp_exact(6, 4), atol=1e-6)
+
+    def op_scale_result():
+        # a caller scaling the weights it was handed must not disturb later callers
+        w = Numerics._cached_projection(4, 6, 3)
+        r = w * 3.0
+        return r is not w
+
+    OPS = {'project': op_project, 'dd1': op_dd1, 'dd2': op_dd2, 'dd1_unpol': op_dd1_unpol, 'lp_F0': op_lp0, 'lp_F.5': op_lpF, 'scale': op_scale_result}
+    names = list(OPS)
+    n = 0
+    for depth in range(1, p['depth'] + 1):
+        for seq in itertools.product(names, repeat=depth):
+            Numerics._projection_cache.clear()
+            for attr in ('_cache', '_proj_cache', '_projection_matrix_cache'):
+                c = getattr(LP, attr, None)
+                if isinstance(c, dict):
+                    c.clear()
+            okseq = True
+            for i, name in enumerate(seq):
+                try:
+                    good = OPS[name]()
+                except Exception as e:
+                    col.violation('C08:cache_history:raises', dict(p, seq=seq, at=i), '%s: %s' % (type(e).__name__, e))
+                    okseq = False
+                    break
+                col.tick(transitions=1)
+                if not good:
+                    col.violation('C08:cache_history:result_depends_on_history', dict(p, seq=seq, at=i), 'operation %s returned a wrong value after %s' % (name, list(seq[:i])))
+                    okseq = False
+                    break
+                if not _cache_ok(col, p, seq[:i + 1]):
+                    okseq = False
+                    break
+            n += 1
+    col.tick(states=n, traces=n)
+    col.distinct('nontrivial', ('cache_history', p['depth']))
+
+
+CASES = {'cache_history': case_cache_history, 'weights': case_weights, 'operator': case_operator, 'maskpairs': case_maskpairs, 'misc': case_misc, 'bfs': case_bfs}
 
 
 def _dispatch(col, case):
@@ -331,6 +437,7 @@ def run(ctx):
     for n in (5, 12, 40):
         cases.append({'kind': 'misc', 'what': 'neutral_fixed_point', 'n': n})
     cases.append({'kind': 'misc', 'what': 'upward'})
+    cases.append({'kind': 'cache_history', 'depth': 2 if ctx.quick else 3})
     # C
     starts = [((4,), None), ((5,), (2,)), ((3, 4), None), ((3, 4), (1, 2)), ((4, 4), (0, 3)), ((3, 2, 3), None), ((3, 2, 3), (1, 1, 1))]
     if not ctx.quick:
